@@ -113,6 +113,32 @@ func replay(raw json.RawMessage) (string, bool) {
 			return "the feature vector is outside the workspace grammar", false
 		}
 		migrateOne(col, mc, deps, newCounter(), newCounter(), true)
+	case "migration-deps":
+		var c struct {
+			Vector map[string]int `json:"features"`
+		}
+		if err := json.Unmarshal(head.Case, &c); err != nil {
+			return "cannot decode the migration case", false
+		}
+		deps, err := newDepWorldDeps()
+		if err != nil {
+			return err.Error(), false
+		}
+		dims := depDims()
+		ix := indexDims(dims)
+		v := make([]int, len(dims))
+		for name, val := range c.Vector {
+			i, ok := ix[name]
+			if !ok || val < 0 || val >= dims[i].N {
+				return fmt.Sprintf("the case names dimension %s=%d which the dependency-world grammar does not have (any more)", name, val), false
+			}
+			v[i] = val
+		}
+		mc, ok := buildDepWorld(dims, ix, v, deps)
+		if !ok {
+			return "the feature vector is outside the dependency-world grammar", false
+		}
+		migrateOne(col, mc, deps, newCounter(), newCounter(), true)
 	default:
 		return "unknown case kind " + head.Kind, false
 	}
